@@ -44,7 +44,7 @@ BOUNDS = {
              "x sort x mode; arrange: sort, each wf, every permutation in 3 forms; fixsigns(); redistribute(each n); "
              "every int-valued wf / mode argument as int and np.int64; "
              "12 depth-2 compositions; extract: every ordered subset x forms (single index: int, np.int64); permute: all N! x forms; "
-             "tovec/from_vector (1d,col,row) / update (every sorted mode subset incl. -1; single mode: int, np.int64) / "
+             "tovec/from_vector (1d,col,row; also after normalize(weight_factor=0|last|all) and with C-ordered / strided-view factor arrays) / update (every sorted mode subset incl. -1; single mode: int, np.int64) / "
              "tolist (None, each n as int and np.int64); "
              "+,-,neg,pos, scalar*(7 scalars: float, int, np.float64, np.int64; both sides); fixsigns() and fixsigns();fixsigns() "
              "on the small weight family x every per-mode column sign pattern {+-1}^N per component (full product if <=64 "
@@ -690,6 +690,13 @@ def _v_vector(N, R):
         out.append({"op": "tovec", "iw": iw})
         for form in ("1d", "col", "row"):
             out.append({"op": "from_vector", "iw": iw, "form": form})
+    # depth 2 (non-initial states): the same object reached through an in-place re-parameterisation or holding
+    # factor arrays of another memory layout; the documented vector layout is defined on the current parameters
+    pres = ["normalize:0", "normalize:all", "c_order", "view"] + ([f"normalize:{N - 1}"] if N > 1 else [])
+    for pre in pres:
+        for iw in (True, False):
+            out.append({"op": "tovec", "iw": iw, "pre": pre})
+            out.append({"op": "from_vector", "iw": iw, "form": "1d", "pre": pre})
     modes_all = [-1] + list(range(N))
     for k in range(1, len(modes_all) + 1):
         for sub in itertools.combinations(modes_all, k):
@@ -713,13 +720,31 @@ def _vecform(x, form):
     raise ValueError(form)
 
 
+def _apply_pre(K, pre):
+    """In-place prefix of a vector round trip; returns the (weights, factors) the object holds afterwards."""
+    if pre.startswith("normalize:"):
+        a = pre.split(":")[1]
+        K.normalize(weight_factor="all" if a == "all" else int(a))
+    elif pre == "c_order":
+        for n in range(len(K.factor_matrices)):
+            K.factor_matrices[n] = np.ascontiguousarray(K.factor_matrices[n])
+    elif pre == "view":
+        for n in range(len(K.factor_matrices)):
+            f = K.factor_matrices[n]
+            big = np.zeros((2 * f.shape[0] + 1, 2 * f.shape[1] + 1))
+            big[::2, ::2][: f.shape[0], : f.shape[1]] = f
+            K.factor_matrices[n] = big[::2, ::2][: f.shape[0], : f.shape[1]]
+    return np.array(K.weights, dtype=float), [np.array(f, dtype=float) for f in K.factor_matrices]
+
+
 def _run_vector(case, ctx):
     import pyttb as ttb
 
     h = case["h"]
     shape, R = tuple(h["shape"]), h["rank"]
     N = len(shape)
-    w, U = H.ktensor_parts(h)
+    w0, U0 = H.ktensor_parts(h)
+    w, U = w0, U0
     A = rm.kruskal(w, U)
     scale = scale_of(w, U)
     ctx.state()
@@ -733,9 +758,19 @@ def _run_vector(case, ctx):
         p = Probe(ctx, {"check": "vector", "h": h, "only": v})
         K = H.build(h)
         op = v["op"]
+        w, U = w0, U0
+        pre = v.get("pre")
+        if pre:
+            ok, wu = p.call("ktensor.tovec", lambda: _apply_pre(K, pre), "pre:" + pre)
+            if not ok:
+                continue
+            w, U = wu
+            if not (np.all(np.isfinite(w)) and all(np.all(np.isfinite(u)) for u in U)):
+                ctx.inadm()
+                continue
         if op == "tovec":
             iw = v["iw"]
-            var = "weights" if iw else "noweights"
+            var = ("weights" if iw else "noweights") + (":after:" + pre if pre else "")
             ok, x = p.call("ktensor.tovec", lambda: K.tovec(iw), var)
             if ok:
                 want = ref_vec(w, U, iw)
@@ -747,7 +782,7 @@ def _run_vector(case, ctx):
                     ctx.outcome(x)
         elif op == "from_vector":
             iw, form = v["iw"], v["form"]
-            var = ("weights" if iw else "noweights") + ":" + form
+            var = ("weights" if iw else "noweights") + ":" + form + (":after:" + pre if pre else "")
             ok, x = p.call("ktensor.tovec", lambda: K.tovec(iw), var)
             if not ok:
                 continue
